@@ -1,7 +1,7 @@
 (* On inputs of the fragment alphabet the validator model behaves exactly like the recogniser of FragParser.v. *)
 From Coq Require Import List NArith ZArith Bool Lia PeanoNat.
 From RecordUpdate Require Import RecordSet.
-From V Require Import Common.Str Regex.Reader Gen.UnicodeProps Regex.Validator Regex.Grammar Regex.FragParser.
+From V Require Import Common.Str Regex.Reader Gen.UnicodeProps Regex.Validator Regex.Grammar Regex.FragParser Regex.FragGrammar.
 Import ListNotations RecordSetNotations.
 
 (* the validator is at the input suffix l, in mode u (validate_pattern sets strict = u_flag = u) *)
@@ -38,8 +38,6 @@ Qed.
 Lemma remaining_skipn {A} (us : list A) i m : skipn i us = m -> (length us - i)%nat = length m.
 Proof. intros <-. symmetry. apply skipn_length. Qed.
 
-Lemma sp_quant_false_eq l r : sp_quant l = (false, r) -> r = l.
-Proof. destruct l as [|c l']; cbn [sp_quant]; [intros [= <-]; reflexivity|]. destruct (is_quant_char c); [discriminate|intros [= <-]; reflexivity]. Qed.
 Lemma quantifiable_true l : quantifiable true l = false.
 Proof. destruct l as [|c0 [|c1 [|c2 l]]]; cbn [quantifiable negb]; try reflexivity. apply andb_false_r. Qed.
 (* the input starts with something Assertion matches (or `(?<`, which in the fragment is a look-behind) *)
@@ -190,7 +188,7 @@ Ltac cleanup :=
          | H : @eq bool ?x ?y |- _ => is_var x; subst x
          | H : (?c =? _)%N = true |- _ => is_var c; apply N.eqb_eq in H; subst c; try solve [exfalso; absurd_closed]
          | H : Some _ = Some _ |- _ => injection H as H
-         | H : sp_quant ?l = (false, ?r) |- _ => apply sp_quant_false_eq in H; subst r
+         | H : sp_quant _ _ ?l = SOk false ?r |- _ => is_var r; apply sp_quant_false in H; subst r
          | H : sp_assertion _ ?l = SOk false ?r |- _ => is_var r; pose proof (sp_assertion_false_eq _ _ _ H); subst r
          | H : @eq unit _ _ |- _ => clear H
          | H : @eq N ?x ?y |- _ => first [is_var x; subst x | is_var y; subst y]
